@@ -145,6 +145,9 @@ func (p *Prog) AllFuncs(pkgs []*packages.Package, f func(*FuncInfo)) {
 				}
 				fi := &FuncInfo{Obj: obj, Decl: fd, Pkg: pk}
 				p.declCache[obj] = fi
+				if p.inlinedAway[obj] {
+					continue // a new helper whose every call was read as part of the caller
+				}
 				f(fi)
 			}
 		}
